@@ -22,6 +22,14 @@ claim('C02', 'CrossHair symbolic execution of the real LALR table construction (
       'Bounded: every grammar of the stated template and corpus, every token string up to the bound; state-by-state table equality closes the per-grammar "all states" quantifier; '
       'reduce/reduce priority resolution is decided for all integer priorities.',
       'Trusted: refsem.lalrref (textbook construction), CrossHair path exhaustion (vacuity twins). Grammars with useless symbols are skipped and counted.', '3/C02')
+claim('C03', 'CrossHair symbolic execution of the real parsers (Earley, LALR, CYK) and ParseTreeBuilder callbacks over lazily realised token sequences, '
+      'vs. an independent derivation + shaping oracle',
+      'Bounded: every token string up to the bound on each corpus grammar and option combination; the tree must be the documented shaping of a derivation (of the derivation when unique, '
+      'hence engines agree).', 'Trusted: refsem.cfg/shape oracle, CrossHair exhaustion (twins).', '3/C03')
+claim('C08', 'CrossHair symbolic execution of the real parsers; exception class, first-offending-token index and expected/accepts sets vs. reference viable-prefix and next-terminal sets; '
+      'other exception types escape as counterexamples; watchdog for hangs',
+      'Bounded: every token string up to the bound per corpus grammar (Earley, LALR, CYK); token-level positions.',
+      'Trusted: refsem.cfg viable-prefix computation; grammars without unproductive rules.', '3/C08')
 claim('C06', 'z3 regex-theory queries on sre_parse translations of the real terminal regexps (newline lemma, unbounded over strings) + CrossHair symbolic execution of LineCounter '
       'from an arbitrary integer pre-state + CrossHair over all class-strings through every lexer',
       'The newline lemma is decided for all strings per terminal spelling; the counter step is inductive over unbounded integer state with a bounded token; the end-to-end part is bounded by '
